@@ -14,6 +14,7 @@ ALL = "{1,2,3,4,5,6,7,8,9,10,11,12,13,14,15,16}"
 MC = """SPECIFICATION Spec
 """ + LIMITS + """          MaxFrames = {frames}
           MaxChunks = {chunks}
+          MaxChunks1 = {chunks1}
           Live = {live}
           Legacy = {legacy}
           Univ = {univ}
@@ -25,8 +26,8 @@ CHECK_DEADLOCK FALSE
 DESIGN_INV = "DecodedIsPrefix OneReplyEach NeverClosed BufferParses Quiescent RepliesWellFormed NoStuck"
 
 
-def mc(frames, chunks, univ=ALL, live=False, legacy="{}", emit="ACTION_CONSTRAINT EmitEnd", inv=DESIGN_INV, lemmas=False):
-    return MC.format(frames=frames, chunks=chunks, univ=univ, live="TRUE" if live else "FALSE", legacy=legacy, emit=emit,
+def mc(frames, chunks, chunks1=None, univ=ALL, live=False, legacy="{}", emit="ACTION_CONSTRAINT EmitEnd", inv=DESIGN_INV, lemmas=False):
+    return MC.format(frames=frames, chunks=chunks, chunks1=chunks1 or chunks, univ=univ, live="TRUE" if live else "FALSE", legacy=legacy, emit=emit,
                      inv=inv, lemmas="TRUE" if lemmas else "FALSE")
 
 
@@ -34,14 +35,15 @@ PROBE = """SPECIFICATION {spec}
 """ + LIMITS + """          Alpha <- {alpha}
           N = {n}
           P = {p}
+          NMin = {nmin}
           NMax = {nmax}
 INVARIANTS {inv}
 CHECK_DEADLOCK FALSE
 """
 
 
-def probe(spec, inv, alpha="Alpha13", n=3, p=2, nmax=3):
-    return PROBE.format(spec=spec, inv=inv, alpha=alpha, n=n, p=p, nmax=nmax)
+def probe(spec, inv, alpha="Alpha13", n=3, p=2, nmin=0, nmax=3):
+    return PROBE.format(spec=spec, inv=inv, alpha=alpha, n=n, p=p, nmin=nmin, nmax=nmax)
 
 
 TRACE = """SPECIFICATION TSpec
